@@ -139,9 +139,11 @@ impl AsKey for Vec<u8> {
 }
 
 pub fn hex(b: &[u8]) -> String {
+    const D: &[u8; 16] = b"0123456789abcdef";
     let mut s = String::with_capacity(b.len() * 2);
     for x in b {
-        s.push_str(&format!("{:02x}", x));
+        s.push(D[(x >> 4) as usize] as char);
+        s.push(D[(x & 15) as usize] as char);
     }
     s
 }
@@ -213,6 +215,9 @@ impl Report {
     }
     pub fn cov_get(&self, k: &str) -> u64 {
         self.cov.get(k).copied().unwrap_or(0)
+    }
+    pub fn wants_sample(&self) -> bool {
+        self.samples.len() < 6
     }
     pub fn sample(&mut self, v: Value) {
         if self.samples.len() < 6 {
@@ -455,5 +460,11 @@ impl Ctx {
     }
     pub fn elapsed(&self) -> f64 {
         self.start.elapsed().as_secs_f64()
+    }
+    /// progress line on stderr in interpreter runs (where a stage may take minutes)
+    pub fn progress(&self, label: &str) {
+        if REDUCED.load(std::sync::atomic::Ordering::Relaxed) {
+            eprintln!("[progress] {:>8.1}s {}", self.elapsed(), label);
+        }
     }
 }
